@@ -24,6 +24,55 @@ add('C01', 'model_checking', BFS + '; oracle: union-of-spans model + accept/reje
     'Trusted: the 150-line reference model, the structural state key (equal key => equal futures, by determinism of '
     'the library), PYTHONHASHSEED=0. Bounds in evidence; histories beyond the depth bound are not covered.')
 
+NOTE = ('Trusted: the reference model / oracle code in mc/, the structural state key (equal key => equal futures, by '
+        'determinism of the library), PYTHONHASHSEED=0. Bounds are in the evidence file; behaviour beyond them is not covered.')
+ENUM = 'exhaustive enumeration of a bounded input space, every input executed on the real code and compared with a direct definition'
+
+add('C02', 'model_checking', BFS + '; oracle: static networkx graph built from has_interaction at t',
+    'Every reachable state (both classes, both modes) x every probe instant and t=None x every query entry point (methods and '
+    'module-level helpers) x an nbunch menu is compared with the static graph induced by the state\'s own has_interaction matrix.', NOTE)
+add('C03', 'model_checking', BFS + '; oracle: canonical-form invariant on every exposed timeline',
+    'Every reachable removal-enabled state and every library-derived graph of it: each exposed timeline is sorted, disjoint, '
+    'non-adjacent, its union equals presence, both endpoints expose the same list.', NOTE)
+add('C04', 'model_checking', BFS + '; oracle: inhabited instants / per-instant pair counts from presence',
+    'Every reachable removal-enabled state x every probe instant: snapshot ids == inhabited instants, per-snapshot counts == '
+    'number of pairs present, avg_number_of_nodes == mean.', NOTE)
+add('C05', 'model_checking', BFS + '; oracle: stream<->presence conditions + replay reconstruction',
+    'Every reachable removal-enabled state: chronological, duplicate-free stream; + exactly at run starts; - only at run ends; '
+    'runs longer than one instant closed; replaying the stream reconstructs presence.', NOTE)
+add('C06', 'model_checking', BFS + '; every window and inner window on every state; oracle: clipped presence, well-formedness, before/after equality',
+    'Every reachable removal-enabled state x every window (valid and invalid) x inner windows: time_slice result vs clipped presence.', NOTE)
+add('C07', 'model_checking', 'explicit-state BFS with fault enumeration: every rejected call in every reachable state, twin comparison + continuations',
+    'Every reachable state (both classes, both modes) x every call the rule rejects (incl. bulk helpers failing mid-way): observable '
+    'snapshot equals that of the twin that never made the call; continuations compared when internals differ.', NOTE)
+add('C08', 'model_checking', BFS + ' with edge_removal=False; oracle: accumulative reference model',
+    'Every reachable accumulative state: presence == [first add, last snapshot id], ids == accepted instants, stream == one + per pair.', NOTE)
+add('C09', 'model_checking', 'explicit-state BFS states x I/O menu (delimiter, encoding, target kind, id type); oracle: exact row multiset + presence after read-back',
+    'Every reachable removal-enabled state x I/O menu: bytes written == one row per (interaction, instant); read-back presence equal; 4-column rows read as spans.', NOTE)
+add('C10', 'model_checking', 'explicit-state BFS states x I/O menu plus all well-formed event logs up to k rows; oracle: stream rows, reader model, presence+stream equality',
+    'Every reachable removal-enabled state: written rows == stream; read-back has equal presence and stream; every well-formed chronological '
+    'event log up to the bound is fed to the reader and compared with the reader model.', NOTE)
+add('C11', 'model_checking', 'explicit-state BFS states x attrs/directed menu through a real JSON encoder; oracle: link multiset, node/attr/class/presence equality',
+    'Every reachable state with isolated nodes and attributes x (attrs id, directed key, directed argument): node_link_data content and rebuilt graph.', NOTE)
+add('C12', 'model_checking', 'exhaustive enumeration of temporal graphs (presence matrices) x all (u,v,start,end); oracle: per-hop soundness conditions',
+    'All temporal graphs over small universes built through the public API x all source/target/window choices: every returned path is checked hop by hop.', NOTE)
+add('C13', 'model_checking', 'exhaustive enumeration of temporal graphs x all (u,v,start,end,min_t); oracle: independent brute-force path enumerator; RNG answers enumerated',
+    'Same universe as C12 (loop-free): result set == brute-force enumeration; sample<1 subset for every chooser answer; all_time_respecting_paths == per-source results.', NOTE)
+add('C14', 'exploration', ENUM + ' (all ordered lists of abstract paths)',
+    'annotate_paths on every ordered list of up to k paths over an abstract path set with ties and duplicates, vs the direct definitions of the five criteria.', NOTE)
+add('C15', 'model_checking', 'exhaustive enumeration of temporal graphs x roots x targets x windows (valid and invalid); oracle: acyclicity, edge soundness, sources/targets, exception type',
+    'Same graphs as C12 x every root/target/window incl. invalid ones: DAG acyclic, edges sound, sources exact, ValueError exactly on invalid windows.', NOTE)
+add('C16', 'model_checking', 'explicit-state BFS states of the source class; oracle: presence union/intersection, isolation by mutation, well-formedness of the result',
+    'Every reachable state: to_undirected (both reciprocal values) / to_directed result vs union/intersection of presence; copies are isolated; G unchanged.', NOTE)
+add('C17', 'model_checking', 'explicit-state BFS states (DynGraph, no self-loops); oracle: exact Fraction recomputation from presence / the stream',
+    'Every reachable state with >= 1 snapshot: each statistic equals its definition computed exactly from presence; inter-event histograms from the stream.', NOTE)
+add('C18', 'exploration', ENUM + ' (all line sequences over a row grammar x delimiter; all timestamp sets in a window)',
+    'Readers on every line sequence up to k over a noise/valid row grammar vs the graph of the valid rows alone; compact_timeslot on every subset; keys=True on every clean file.', NOTE)
+add('C19', 'model_checking', 'explicit-state BFS states x every public inherited networkx callable (introspection) x synthesised args; frozen twin; oracle: exception type + observational equality + well-formedness',
+    'Every inherited networkx callable in every reachable state with synthesised arguments; every mutator on the frozen twin.', NOTE)
+add('C20', 'exploration', ENUM + ' (all labelled temporal graphs over a small universe x start x delta x alpha x path type); relations: range, key set, invariances, uniform labels, sliding = pointwise',
+    'delta_conformity / sliding_delta_conformity on every labelled temporal graph of the universe: range, node set, label/id renaming invariance, uniform-label value, sliding consistency.', NOTE)
+
 
 def main():
     props = [json.loads(l)['id'] for l in open(os.path.join(VERIF, 'properties.jsonl'))]
